@@ -8,7 +8,7 @@ import os
 import re
 import tomllib
 
-from rstok import SourceFile, LostAnchor, mask, match_close, skip_ws, split_fn_header, skip_angle
+from rstok import SourceFile, LostAnchor, mask, match_close, skip_ws, split_fn_header, skip_angle, split_top_level
 from normalise import normalise, Unsupported, _closure_at
 from spec import parse_spec, SpecFile, SpecError
 
@@ -150,6 +150,29 @@ def find_closures(m):
     return res
 
 
+def _closure_param_names(hdr):
+    """Names bound by a closure header `|a: T, b| ...` (types dropped)."""
+    h = hdr.strip()
+    if h.startswith("||"):
+        return []
+    a = h.index("|")
+    depth, j = 0, a + 1
+    while j < len(h):
+        if h[j] in "([<":
+            depth += 1
+        elif h[j] in ")]>":
+            depth -= 1
+        elif h[j] == "|" and depth == 0:
+            break
+        j += 1
+    names = []
+    inner = h[a + 1:j]
+    if inner.strip():
+        for part in split_top_level(inner, mask(inner), ","):
+            names.append(part.split(":")[0].strip())
+    return names
+
+
 def annotate_body(body, c, out_log, notes=None):
     """Apply loop invariants, closure headers and proof blocks of contract c to a (normalised) body.
     Annotations that cannot be attached (the code's loop/closure/statement structure changed) are skipped and
@@ -170,11 +193,20 @@ def annotate_body(body, c, out_log, notes=None):
         m = mask(body)
         cl = find_closures(m)
         for n in sorted(c.closures, reverse=True):
-            if n < 1 or n > len(cl):
-                lost("closure #%d not found in %s (found %d)" % (n, c.name, len(cl)))
+            if n < 1:
                 continue
-            i, ps, pe, bs, be = cl[n - 1]
             hdr = c.closures[n]
+            # the ordinal is only a hint: if the closure found there binds other parameter names than the contract header,
+            # take the unique closure that binds exactly the header's names (robust against added/removed closures)
+            want = _closure_param_names(hdr)
+            pick = cl[n - 1] if n <= len(cl) else None
+            if pick is not None and _closure_param_names("|" + body[pick[1]:pick[2]] + "|") != want:
+                same = [x for x in cl if _closure_param_names("|" + body[x[1]:x[2]] + "|") == want]
+                pick = same[0] if len(same) == 1 else None
+            if pick is None:
+                lost("closure #%d (%s) not found in %s" % (n, ",".join(want), c.name))
+                continue
+            i, ps, pe, bs, be = pick
             btxt = body[bs:be]
             if not btxt.lstrip().startswith("{"):
                 btxt = "{ " + btxt + " }"
